@@ -135,7 +135,10 @@ def gen_history(rng):
         steps.append({"h": rng.random(), "len": rng.random(), "cursor": rng.random(), "d": rng.random(),
                       "nested": rng.random() < .3, "d2": rng.random(), "extra_query": rng.random() < .2,
                       "d3": rng.random()})
-    return {"kind": "history", "rows": rows, "cols": cols, "pre": rng.randint(0, rows - 1), "steps": steps}
+    case = {"kind": "history", "rows": rows, "cols": cols, "pre": rng.randint(0, rows - 1), "steps": steps}
+    if rng.random() < .25:
+        case["queries_before_first_render"] = [rng.random() for _ in range(rng.randint(1, 3))]
+    return case
 
 
 def pick(frac, lo, hi):
@@ -157,6 +160,20 @@ def run_history(ctx, case):
             term.feed("h\r\n")
         with CursorAwareWindow(out, inp) as w:
             log = []
+            if case.get("queries_before_first_render"):
+                # the first query only establishes where the cursor is; every later one must
+                # account for the movement since the previous query
+                w.get_cursor_vertical_diff()
+                for frac in case["queries_before_first_render"]:
+                    d = pick(frac, -term.y, rows - 1 - term.y)
+                    term.y += d
+                    top0 = w.top_usable_row
+                    ret = w.get_cursor_vertical_diff()
+                    accounted = (w.top_usable_row - top0) + ret
+                    ctx.judge(accounted == d, case, ("C18", "pre-render", rows, top0, d), "C18:movement-not-conserved",
+                              d, accounted, {"before first render": True}, d != 0)
+                    if accounted != d or not (0 <= w.top_usable_row < rows):
+                        return
             for k, st in enumerate(case["steps"]):
                 top = w.top_usable_row
                 if not (0 <= top < rows):
